@@ -37,6 +37,8 @@ def main():
         nds += len(ds)
         canon_failed = set(id(d) for d, vn, _, _, _ in fails if vn == "canonical")
         for d, vn, text, sig, det in fails:
+            if any(l.startswith("dg:") for l in d["labs"]):
+                continue          # accepted by the parser, but not a sentence of the standard: outside "well-formed source text"
             if vn != "canonical" and id(d) in canon_failed:
                 continue          # already reported for the canonical spelling
             if sig == "parse-fail":
